@@ -171,6 +171,7 @@ func cmdCheck(args []string) {
 	tSolve := time.Since(t0).Seconds() - tLoad - tBuild
 
 	var evs []evObl
+	nReplays := 0
 	canaryOK := map[string]bool{}
 	canaryUndecided := map[string]bool{}
 	var canaryOrder []*Finding
@@ -245,8 +246,16 @@ func cmdCheck(args []string) {
 			violations++
 			info := map[string]interface{}{"obligation": r.O.Name, "kind": r.O.Kind, "clause": r.O.Clause, "pos": r.O.Pos, "solver_status": r.R.Status, "solver": r.R.Solver, "solver_answers": r.R.Answers, "solver_output": trunc(r.R.Output, 4000)}
 			confirmed := false
-			if r.R.Status == "sat" {
-				m, mout := modelValues(dir, r.VC, r.O, r.R.Solver, timeoutS)
+			if r.R.Status == "sat" && nReplays >= 4 {
+				info["replay"] = "not attempted: four counterexamples of this run were already replayed"
+			}
+			if r.R.Status == "sat" && nReplays < 4 {
+				nReplays++
+				mt := timeoutS
+				if mt > 25 {
+					mt = 25
+				}
+				m, mout := modelValues(dir, r.VC, r.O, r.R.Solver, mt)
 				_ = mout
 				vals := map[string]string{}
 				for k, v := range m {
